@@ -276,14 +276,25 @@ def b_minmax(is_min):
     def f(ex, vals, s, e):
         if len(vals) < 2:
             raise Unbound('min/max of an iterable')
-        acc = vals[0]
-        for v in vals[1:]:
-            if isinstance(acc.t, TOpt) or isinstance(v.t, TOpt) or acc.t is NONE or v.t is NONE:
-                raise Unbound('min/max with optional operand')
+        # an operand that is None makes the comparison raise TypeError
+        outs = []
+        cur = s
+        plain = []
+        for v in vals:
+            if v.t is NONE:
+                return [X.Res(cur.copy().note('L%s: min/max with None' % e.lineno), exc='TypeError', node=e)]
+            if isinstance(v.t, TOpt):
+                outs.append(X.Res(cur.copy().assume(v.t.dt.is_none(v.z)).note('L%s: min/max with None' % e.lineno),
+                                  exc='TypeError', node=e))
+                cur = cur.copy().assume(z3.Not(v.t.dt.is_none(v.z)))
+                v = SV(v.t.t, v.t.dt.v(v.z))
+            plain.append(v)
+        acc = plain[0]
+        for v in plain[1:]:
             a, b, t = ex.num_join(acc, v)
             # python returns the first on ties; values equal anyway
             acc = SV(t, z3.If((b.z < a.z) if is_min else (b.z > a.z), b.z, a.z))
-        return [X.Res(s, acc)]
+        return outs + [X.Res(cur, acc)]
     return f
 
 
